@@ -154,7 +154,13 @@ func vf34EditSecondHello(rt *rapid.T, c *vf34CH, l string) string {
 		if i := vf34ExtIdx(c, 51); i >= 0 {
 			switch pick(3, "ks_how") {
 			case 0:
-				c.Exts[i].Body = vf34Vec16(append(append([]byte(nil), c.Exts[i].Body[2:]...), append(vf34PutU16(nil, 0x001d), vf34Vec16(make([]byte, 32))...)...))
+				old := c.Exts[i].Body
+				if len(old) >= 2 { // (an earlier edit may have emptied the body)
+					old = old[2:]
+				} else {
+					old = nil
+				}
+				c.Exts[i].Body = vf34Vec16(append(append([]byte(nil), old...), append(vf34PutU16(nil, 0x001d), vf34Vec16(make([]byte, 32))...)...))
 			case 1:
 				c.Exts[i].Body = []byte{0, 0}
 			default:
